@@ -74,6 +74,19 @@ func c14(c *Ctx) {
 			}
 		}
 		c.Expect(ncl == 1, nil, f, "one-close-of-goaway-channel", "expected exactly one close of the GOAWAY channel")
+		// the handler fails the connection only for an even non-zero id, an id above the previous GOAWAY's, or a GOAWAY that
+		// finds no active stream — never while streams at or below the announced id are still running
+		fLast := c.field(h2, "GoAwayFrame", "LastStreamID")
+		for _, r := range returnsOf(f) {
+			if r.Block() == f.Recover || ConstNil(strip(r.Results[0])) {
+				continue
+			}
+			c.MustFactAny(r, "connection-error-only-for-a-stated-reason",
+				CmpInt(func(v ssa.Value) bool { b, ok := v.(*ssa.BinOp); return ok && b.Op == token.REM && ConstInt(2)(b.Y) }, token.EQL, 0),
+				Cmp(FieldLoad(fLast), token.GTR, FieldLoad(cl("prevGoAwayID"))),
+				CmpInt(LenOf(FieldLoad(cl("activeStreams"))), token.EQL, 0),
+				Cmp(FieldLoad(cl("state")), token.EQL, ConstOfObj(c.konst(tr, "closing"))))
+		}
 		// "have I seen a GOAWAY before?" is decided on the GOAWAY channel itself (closed = yes), not on the draining state,
 		// which the client also enters on its own (GracefulClose) without any GOAWAY: the channel is closed on the arm
 		// where the non-blocking receive from it did not fire, and the "id exceeds the previous GOAWAY's" connection error
